@@ -190,6 +190,11 @@ def rules(rep, facts):
         r5_map_delegate(rep, facts)
 
 
+def _crossref(rep):
+    from .shared import clippy_crossref
+    clippy_crossref(rep, 'C16/R1x')
+
+
 def run(tier):
     return run_property(PROP, tier, rules, configs_quick=('default', 'preserve_order'),
-                        configs_thorough=['default', 'perf', 'preserve_order', 'perf_preserve_order', 'toml_parse_po', 'toml_display_po', 'toml_nodefault', 'edit_nodefault'])
+                        configs_thorough=['default', 'perf', 'preserve_order', 'perf_preserve_order', 'toml_parse_po', 'toml_display_po', 'toml_nodefault', 'edit_nodefault'], extra=_crossref if tier == 'thorough' else None)
